@@ -134,6 +134,16 @@ Theorem C17_ctl_equiv_target_rest : forall rx all c st rs ph phs rq,
 Proof. exact ctl_target_equiv_rest. Qed.
 Print Assumptions C17_ctl_equiv_target_rest.
 
+(* a LIST of target exclusions executed in one transaction (one trigger rule or several; any mix of by-id,
+   by-tag, by-msg, regex / string / whole-collection keys, the same rule and collection hit repeatedly):
+   the rest of the transaction behaves as over the rule list with ALL of them written in (rw_list) *)
+Theorem C17_ctl_equiv_target_list : forall rx all cs st rs ph phs rq,
+  forallb is_tgt_ctl cs = true ->
+  obs (cf_rest rx all rs ph phs rq (fold_left (fun s c => cf_ctl_step all c s) cs st))
+  = obs (cf_rest rx (rw_list all cs all) (rw_list all cs rs) ph phs rq st).
+Proof. exact ctl_target_list_equiv. Qed.
+Print Assumptions C17_ctl_equiv_target_list.
+
 Theorem C17_run_is_rest : forall rx rules rq, cf_run rx rules rq = cf_rest rx rules rules 1 [2] rq st_init.
 Proof. exact cf_run_rest. Qed.
 Print Assumptions C17_run_is_rest.
